@@ -20,6 +20,8 @@ def enum_names(thorough):
 ILL_FORMED = ["one", "", " ", "A B", "A-B", "É", "One", "a", "A.B", "A\n", " A", "A "]
 
 PAYLOADS = [None, True, 0, -1.5, -2**63, 2**64 - 1, "NaN", "", "s", [], [1, [2]], {}, {"type": "x"}, {"a": {"b": [None]}}, {"zz": 1}, [None, {"k": "Infinity"}], 1e300,
+            # doubles that need correctly rounded parsing (16-17 significant digits, extreme exponents)
+            123456789.12345679, 0.9856906946328695, [914.0641164648499, 9.335744933994957e-17, 5e-324, 1.7976931348623157e308, -122.41941550000001], {"d": 906.7979265841685},
             # member names that read as numbers / booleans (a carrier must keep them as the strings they are)
             {"007": True}, {"1e3": 1, "true": 2, "-0": None}, {"NaN": 1, "Infinity": 2}, {"+1": 1, " 1": 2, "1.0": [{"01": 2}]}, {"18446744073709551616": 0, "1": 1, "01": 2}]
 
@@ -148,6 +150,24 @@ def run(a, rep, TypesBuild, tref):
                         rep.violation(sig("unlisted-name-not-exposed"), "%s [%s]: %s exposes the name %r" % (label, cname, text, r.get("name")), case)
                     else:
                         rep.outcome("unlisted:preserved")
+        # a run of documents that break off inside an unlisted variant's payload (same process, same
+        # thread) must leave nothing behind: the well-formed nested payloads after it still survive
+        if kind == "union" and not cfg["exhaustive"] and name in ("Un", "Union3", "Union1"):
+            broken = ['{"type":"zz","zz":{"a":[[[{"b":[{"c":', '{"zz":[[[[[[1,', '{"type":"zz","zz":[{"a":{"b":{"c":[[', '{"type":"zz","zz":{"a":{"a":{"a":{"a":{"a":"x'] * 40
+            nested = ['{"type":"zz","zz":{"a":{"b":[[1,{"c":null}]]}}}', '{"zz":[[[{"k":[]}]]],"type":"zz"}', '{"type":"zz","zz":[]}', '{"type":"zz","zz":{}}']
+            rep.states += len(nested)
+            resp2 = tb.probe(ci).ask({"ty": "%s:%s" % (cname, name), "op": "de", "docs": broken + nested})
+            for text, res in zip(nested, (resp2.get("results") or [])[len(broken):]):
+                for side in ("c", "s", "a"):
+                    r = res.get(side)
+                    if r is None:
+                        continue
+                    rep.evaluations += 1
+                    case = {"type": name, "config": cname, "doc": text, "side": side, "part": "after-broken"}
+                    if not r.get("ok") or not _json_eq(text, r.get("reser") or "null"):
+                        rep.violation("C10|after-broken-documents|unlisted-not-preserved|%s|%s" % (side, label), "%s [%s]: after 160 documents that break off inside an unlisted payload, %s gives %s (%s)" % (label, cname, text, r.get("reser") or r.get("err"), side), case)
+                    else:
+                        rep.outcome("unlisted:preserved-after-broken-documents")
         rep.sample(label, {"type": label, "config": cname, "documents": [c[0] for c in cases[:2]] + [c[0] for c in cases if c[1] == "unlisted"][:3]})
     if not (only and only.get("part") != "holder"):
         holders(a, rep, tb, tref, leaf_cases)
